@@ -698,7 +698,18 @@ def encode_tcase(tr, max_legs, si):
             g.append("(mkTGen %s %s %s)" % (kind, C.coq_bool(act), lllz(f)))
         gens.append("[" + "; ".join(g) + "]")
     layers = meta["internal_states"][si]["neighbor_layers"]
-    return "mkTCase (%s) %s %s" % (oterm, C.coq_z(layers), "[" + ";\n ".join(gens) + "]")
+    level = meta["internal_states"][si]["cell_level"]
+    vetos = []
+    for n in [0] + used:
+        leg = tr["legs"][n]
+        v = []
+        if leg.get("pick") is not None and leg.get("args") and any(leg["args"]):
+            tg = meta["taggers"][meta["handlers"][leg["pick"]]["tagger"]]
+            if "CellVetoEventHandler" in tg["handler_bases"] and tg.get("internal_state") == si:
+                v.append([u["id"] for a in leg["args"] if a for u in a if len(u["id"]) == level])
+        vetos.append(lllz(v))
+    return "mkTCase (%s) %s %s %s" % (oterm, C.coq_z(layers), "[" + ";\n ".join(gens) + "]",
+                                      "[" + "; ".join(vetos) + "]")
 
 
 def run_oracle(tr):
@@ -836,7 +847,7 @@ def real_runs(ctx, broken, payloads=None):
         for leg, msg in run_oracle(tr):
             fails.append((ti, leg, msg))
     terms, idx = [], []
-    nlegs = ctx.n(120, 400)
+    nlegs = ctx.n(200, 400)
     for ti, tr in enumerate(trs):
         if tr.get("error"):
             continue
